@@ -153,9 +153,14 @@ Proof.
   apply (compose_onboard_inv s rots Hs Hrots (mX m) (mY m) Hx Hy). rewrite <- E1. exact Hon1.
 Qed.
 
-Lemma cstep_inv done boards rots tfn m st' :
+(* the move appended to board 0's list is the image of the input move under the (new) symmetry that maps the original position onto board 0 *)
+Definition last_is_image (done : list rmove) (boards : list cstate) (m : rmove) (st' : cst) : Prop :=
+  exists j', j' < 8 /\ (forall B0, play (P0 sz) (map raw done) = Some B0 -> A_of boards = img j' B0) /\
+             cms (board0 (fst (fst st'))) = cms (board0 boards) ++ [tmr j' s m].
+
+Lemma cstep_inv_ext done boards rots tfn m st' :
   cinv done (boards, rots, tfn) -> nocoll_state (boards, rots, tfn) -> canon_input m ->
-  cstep sz (Ok (boards, rots, tfn)) m = Ok st' -> sc_state st' -> cinv (done ++ [m]) st'.
+  cstep sz (Ok (boards, rots, tfn)) m = Ok st' -> sc_state st' -> cinv (done ++ [m]) st' /\ last_is_image done boards m st'.
 Proof.
   intros Hcinv Hnc Hin Hstep Hsc. assert (Hs := Hs).
   assert (Hr : inrange 20 m).
@@ -184,7 +189,7 @@ Proof.
   (* 3. the common continuation: board 0 is the image under j' of B, the boards are moved by the images of tmr j' s m *)
   assert (Hfin : forall j' rots' tfn', j' < 8 -> A_of boards = img j' B -> agree tfn' j' -> (forall x y, compose rots' x y = tfn' x y) -> rots_ok s rots' ->
             match all_res (map (move_board (syms (Z.of_nat s)) (tmr j' s m)) L) with Ok bs => Ok (bs, rots', tfn') | Err => Err | Panic => Panic end = Ok st' ->
-            cinv (done ++ [m]) st').
+            cinv (done ++ [m]) st' /\ last_is_image done boards m st').
   { clear Hstep Hcase best rot. intros j' rots' tfn' Hj' HA' Hag' Hcomp' Hrots' Hstep.
     destruct (all_res _) as [bs| |] eqn:Eall; try discriminate. inversion Hstep; subst st'; clear Hstep.
     unfold sc_state in Hsc. cbn [fst snd] in Hsc.
@@ -213,6 +218,9 @@ Proof.
     assert (Hbs0 : board0 bs = {| cp := q0; cms := cms (board0 boards) ++ [tmr 0 s m2] |}).
     { unfold board0. rewrite !hd_nth0. exact Enth0. }
     assert (HA2 : A_of bs = abs q0) by (unfold A_of; rewrite Hbs0; reflexivity).
+    split; [|exists j'; split; [exact Hj'|]; split;
+              [intros B0 HB0; rewrite HplayB in HB0; apply some_inj in HB0; subst B0; exact HA'
+              |cbn [fst]; rewrite Hbs0; cbn [cms]; unfold m2; now rewrite (tmr_comp 0 j' s m ltac:(lia) Hj'), comp_0_l]].
     constructor; cbn [fst snd].
     - exact Hlbs.
     - intros b Hb. destruct (In_nth _ _ d Hb) as (i & Hi & <-). rewrite Hlbs in Hi.
@@ -253,6 +261,11 @@ Proof.
     + reflexivity.
     + constructor; [exists i; split; [lia|reflexivity]|exact Hrots].
 Qed.
+
+Lemma cstep_inv done boards rots tfn m st' :
+  cinv done (boards, rots, tfn) -> nocoll_state (boards, rots, tfn) -> canon_input m ->
+  cstep sz (Ok (boards, rots, tfn)) m = Ok st' -> sc_state st' -> cinv (done ++ [m]) st'.
+Proof. intros H1 H2 H3 H4 H5. exact (proj1 (cstep_inv_ext _ _ _ _ _ _ H1 H2 H3 H4 H5)). Qed.
 
 Lemma canonical_inv : forall ms, Forall canon_input ms -> nocoll_trace ms -> sc_trace ms ->
   forall st, fold_left (cstep sz) ms (cinit sz) = Ok st -> cinv ms st.
